@@ -115,8 +115,17 @@ pub(crate) fn remove_or_compress_too_old_logfiles_impl(
         .enumerate()
     {
         if index >= log_limit + compress_limit {
+            #[cfg(flexi_logger_verif)]
+            {
+                crate::verif_hooks::point("cleanup.remove.before");
+                if let Some(e) = crate::verif_hooks::fault("remove", &file) {
+                    return Err(e);
+                }
+            }
             // delete (log or log.gz)
             std::fs::remove_file(file)?;
+            #[cfg(flexi_logger_verif)]
+            crate::verif_hooks::point("cleanup.remove.after");
         } else if index >= log_limit {
             #[cfg(feature = "compress")]
             {
@@ -135,14 +144,46 @@ pub(crate) fn remove_or_compress_too_old_logfiles_impl(
                             }
                         }
 
+                        #[cfg(flexi_logger_verif)]
+                        {
+                            crate::verif_hooks::point("compress.create.before");
+                            if let Some(e) =
+                                crate::verif_hooks::fault("gz_create", &compressed_file)
+                            {
+                                return Err(e);
+                            }
+                        }
                         let mut gz_encoder = flate2::write::GzEncoder::new(
                             File::create(compressed_file)?,
                             flate2::Compression::fast(),
                         );
+                        #[cfg(flexi_logger_verif)]
+                        {
+                            crate::verif_hooks::point("compress.created");
+                            if let Some(e) = crate::verif_hooks::fault("gz_copy", &file) {
+                                return Err(e);
+                            }
+                        }
                         let mut old_file = File::open(file.clone())?;
                         std::io::copy(&mut old_file, &mut gz_encoder)?;
+                        #[cfg(flexi_logger_verif)]
+                        {
+                            crate::verif_hooks::point("compress.copied");
+                            if let Some(e) = crate::verif_hooks::fault("gz_finish", &file) {
+                                return Err(e);
+                            }
+                        }
                         gz_encoder.finish()?;
+                        #[cfg(flexi_logger_verif)]
+                        {
+                            crate::verif_hooks::point("compress.finished");
+                            if let Some(e) = crate::verif_hooks::fault("remove", &file) {
+                                return Err(e);
+                            }
+                        }
                         std::fs::remove_file(&file)?;
+                        #[cfg(flexi_logger_verif)]
+                        crate::verif_hooks::point("compress.removed");
                     }
                 }
             }
@@ -186,6 +227,8 @@ pub(super) fn start_cleanup_thread(
         sender,
         join_handle: builder.spawn(move || {
             while let Ok(MessageToCleanupThread::Act) = receiver.recv() {
+                #[cfg(flexi_logger_verif)]
+                crate::verif_hooks::point("cleanup.thread.act");
                 remove_or_compress_too_old_logfiles_impl(
                     &cleanup,
                     &file_spec,
